@@ -28,6 +28,9 @@ HINT = {
         "the NEXT call (a cached value, a counter, a flag that is not reset); boundary values (0, 1, empty, negative, very large, names "
         "with unusual characters). It must still break the property above and must still need something specific to manifest."),
 }
+HINT[6] = HINT[5] + (" Earlier rounds have used up the obvious places (see the list above): prefer a change of one to three lines in a function none of "
+                     "them touched, whose effect shows only through what ANOTHER function later assumes. You have about 70 minutes in total: decide "
+                     "on the change within the first 20, keep the demo small, and start the full test-suite run no later than minute 45.")
 
 for line in open(os.path.join(VERIF, "properties.jsonl")):
     p = json.loads(line)
